@@ -138,11 +138,12 @@ _COV = re.compile(r"^<(\w+) line \d+, col \d+ to line \d+, col \d+ of module (\w
 
 def run_tlc(module, cfg, workdir, workers=4, timeout=600, simulate=None, env_extra=None,
             deadlock=False, depth_first=False, xmx="8g", coverage=True, extra=None,
-            spec_dir=None):
+            spec_dir=None, _retry=False):
     """Run TLC on spec/<module>.tla with config <cfg> (path relative to spec/ or absolute)."""
     spec_dir = spec_dir or SPEC
     os.makedirs(workdir, exist_ok=True)
-    meta = os.path.join(workdir, "tlc-meta-%s-%d" % (module, int(time.time() * 1000) % 100000000))
+    import uuid
+    meta = os.path.join(workdir, "tlc-meta-%s-%s" % (module, uuid.uuid4().hex[:12]))
     tmp = os.path.join(workdir, "tmp")
     os.makedirs(tmp, exist_ok=True)
     jopts = ["-XX:+UseParallelGC", "-Xmx" + xmx, "-Xss1g", "-Djava.io.tmpdir=" + tmp]
@@ -177,6 +178,11 @@ def run_tlc(module, cfg, workdir, workers=4, timeout=600, simulate=None, env_ext
     r.wall = time.time() - t0
     shutil.rmtree(meta, ignore_errors=True)
     parse_tlc(r)
+    if r.error and "unexpected exception" in r.error and not _retry:
+        # TLC start-up races (e.g. a JVM killed by memory pressure) are retried once
+        return run_tlc(module, cfg, workdir, workers=workers, timeout=timeout, simulate=simulate,
+                       env_extra=env_extra, deadlock=deadlock, depth_first=depth_first, xmx=xmx,
+                       coverage=coverage, extra=extra, spec_dir=spec_dir, _retry=True)
     return r
 
 
